@@ -13,6 +13,7 @@ import C4E.Distr1
 import C4E.Distributor
 import C4E.Lemmas.AListLemmas
 import C4E.Lemmas.VestBacked
+import C4E.App
 namespace C4E.Props.C01
 open C4E C4E.CoinList
 
@@ -491,5 +492,55 @@ end DistrSupply
 
 /-- the hypotheses are satisfiable (two distinct parties) -/
 theorem nonvacuous : ("sender" : String) ≠ "recipient" := by decide
+
+/-! ### minter and distributor together: the supply equation of one block -/
+
+section CustomBlock
+open C4E.Distr C4E.CoinList
+
+theorem creditMain_ledger (e : Env) (b : Bank) (denom : String) (amt : Int) (d : String) :
+    ledger d (App.creditMain e b denom amt) = ledger d b + (if denom = d then amt else 0) := by
+  unfold App.creditMain
+  split
+  · rename_i h; rw [h]; split <;> omega
+  · unfold ledger bankTotal Bank.balance
+    simp only []
+    rw [total_set, amountOf_add]
+    simp only [amountOf]
+    split <;> omega
+
+/-- **C01, first sentence, for the two modules together**: over one `BeginBlock` of cfeminter
+    followed by cfedistributor (any distributor configuration, any pattern of failing bank calls)
+    what all accounts hold plus what has been burned so far grows, in the mint denomination, by
+    exactly the amount the minter reports, and not at all in any other denomination — i.e. the total
+    of all balances changes by exactly the scheduled mint minus the burn recorded in that block -/
+theorem custom_beginblock_supply (e : Env) (p : Minter.Params) (s : App.St) (b : App.Block) (r : App.StepRes)
+    (h : App.beginBlock e p s b = .ok r) (d : String) :
+    ledger d r.st.world.bank = ledger d s.world.bank + (if p.denom = d then r.minted else 0) := by
+  unfold App.beginBlock at h
+  split at h
+  · rename_i mr hm
+    split at h
+    · rename_i br hbr
+      cases h
+      have h1 := distributor_block_ledger e b.subs _ b.faults br hbr d
+      show ledger d br.world.bank = _
+      rw [h1]
+      exact creditMain_ledger e s.world.bank p.denom mr.amount d
+    · cases h
+    · cases h
+  · cases h
+  · cases h
+
+/-- the same as a statement about balances and burns: Δ(Σ balances) = minted − Δ(burned) -/
+theorem custom_beginblock_balances (e : Env) (p : Minter.Params) (s : App.St) (b : App.Block) (r : App.StepRes)
+    (h : App.beginBlock e p s b = .ok r) (d : String) :
+    bankTotal d r.st.world.bank - bankTotal d s.world.bank
+      = (if p.denom = d then r.minted else 0) - (amountOf r.st.world.bank.burned d - amountOf s.world.bank.burned d) := by
+  have := custom_beginblock_supply e p s b r h d
+  unfold ledger at this
+  omega
+
+end CustomBlock
 
 end C4E.Props.C01
